@@ -36,6 +36,12 @@ func checkC03(r *evid.Run) {
 				apiReplayRec{Hist: a.Hist, Conc: c, Variant: a.N})
 		}
 	})
+	// beyond the bound: long random histories (wide fan-out, several trees) validated by TLC (TraceApi.tla)
+	if r.Tier == "thorough" {
+		traceAPIHistories(r, 400, 60)
+	} else {
+		traceAPIHistories(r, 40, 40)
+	}
 	r.Set("exhaustive", true)
 	r.Set("rule", "every order of NewRoot/Add calls (repeated Adds of existing names anywhere, several trees) of at most MaxCalls-1 calls followed by one operation of each kind (text with branch tuples, JSON/YAML/TOML, walk callback/iterator, each through the current function or its deprecated alias) on any node incl. nil and non-roots; result compared with the specification and with the real From-Markdown call on the canonical spelling; non-trivial = at least 3 calls")
 }
